@@ -627,7 +627,7 @@ Proof. exact stripped_pkg_conditions. Qed.
 Theorem C14_fully_parsed_of_derivation : forall ls q g,
   from_lines ls = Ok q ->
   derives (map token_of_tok (l_toks q)) g = true -> line_scoped (map token_of_tok (l_toks q)) g = true ->
-  in_frag g = true -> tokdata_ok (map token_of_tok (l_toks q)) g = true ->
+  excl g = true ->
   fully_parsed q = true.
 Proof. exact fully_parsed_of_derivation. Qed.
 
